@@ -33,6 +33,23 @@ pub fn check(case: &SelCase, obs: &mut Obs) -> CheckResult {
                 w.cfg.stall_deselect,
                 usable.iter().map(|i| { let c = &w.links[*i]; (c.stall_latched(), c.verif_guard_state().2, c.weak, c.loss_degraded) }).collect::<Vec<_>>()
             );
+            // "returns an uplink for the packet instead of dropping it": a datagram handed to a link that is not
+            // registered / connected / heard within the timeout is as good as dropped while a usable one exists
+            let r = res.unwrap();
+            vensure!(
+                usable.contains(&r),
+                "unusable-link-chosen-while-usable-exists",
+                "step {}: usable link(s) {:?} exist but the scheduler returned link {r} (connected {}, registered {}, receive age {:?}, mode {:?})",
+                w.step,
+                usable,
+                w.links[r].connected,
+                w.registered.get(r).copied().unwrap_or(false),
+                w.links[r].last_received.map(|lr| w.now.saturating_sub(lr)),
+                w.cfg.mode
+            );
+            if r > 0 && (0..r).any(|i| !usable.contains(&i)) {
+                obs.class("chosen-link-behind-an-unusable-one");
+            }
             // non-triviality: every usable link has a gate engaged, or another link is excluded
             let mut all_gated = true;
             let mut union = [false; 5];
